@@ -916,9 +916,10 @@ impl FromJson for AnnotationStore {
         let deserializer = &mut serde_json::Deserializer::from_reader(reader);
         self.set_merge_mode(true);
 
-        DeserializeAnnotationStore::new(self)
+        //(no early return here: merge mode, workdir and filename must be restored on failure too)
+        let result = DeserializeAnnotationStore::new(self)
             .deserialize(deserializer)
-            .map_err(|e| StamError::DeserializationError(e.to_string()))?;
+            .map_err(|e| StamError::DeserializationError(e.to_string()));
 
         self.set_merge_mode(false);
 
@@ -934,7 +935,7 @@ impl FromJson for AnnotationStore {
         self.config.workdir = previous_workdir;
         self.filename = previous_filename;
 
-        Ok(())
+        result
     }
 
     /// Merges an AnnotationStore from a STAM JSON string into the current one
@@ -952,13 +953,14 @@ impl FromJson for AnnotationStore {
 
         self.set_merge_mode(true);
 
-        DeserializeAnnotationStore::new(self)
+        //(no early return here: merge mode must be switched off on failure too)
+        let result = DeserializeAnnotationStore::new(self)
             .deserialize(deserializer)
-            .map_err(|e| StamError::DeserializationError(e.to_string()))?;
+            .map_err(|e| StamError::DeserializationError(e.to_string()));
 
         self.set_merge_mode(false);
 
-        Ok(())
+        result
     }
 }
 
